@@ -6,6 +6,9 @@ import os
 VERIF = os.path.dirname(os.path.dirname(os.path.abspath(__file__)))
 
 CHECKS = {
+    "C19": ("recorded per-state rates of real chains on CTMCCredit grids vs closed forms; harness-side Levy-copula mass of the default region from a different decomposition (inclusion-exclusion of half-spaces, corner sums on quadrature tail integrals); quadrature of the CDS payoff against the default-time law",
+            "Held-on-observed: 1-d default rate = closed form of the truncated model = quadrature; n-d default rate = region mass in the box, closed form within the mass outside the box; theta = inclusion-exclusion, monotone; survival / spread relations; inverses; E[CDS payoff].",
+            "Finite-variation margins; copula callable trusted (C11).", "3/C19"),
     "C16": ("record-only capture of the driver path consumed by the real single and coupled SDE schemes; independent numpy Euler recursion and closed forms (constant, diagonal) as oracle; df monitors on fine meshes around every tenor",
             "Held-on-observed: scheme = Euler recursion for Constant / DiagX / Libor / ForwardMarket coefficients with 1-d and copula drivers, both components of the coupled pair at levels 1..2, epsilon = h^BG, coarse driver drift of the level below; df(0)=1, positive, non-increasing, continuous.",
             "Libor model with a copula driver not run (nested quadrature).", "3/C16"),
